@@ -39,6 +39,11 @@ type c19fConnInfo struct {
 	testedPend   int  // pending calls + relayed calls at the instant of the pending test
 	reachedClose bool
 	closedBySwp  bool
+	// the instant the poller arrived at idle.sweep.close (all its tests done, nothing else has
+	// happened since the last of them): the oracle's own reading of the statement at that instant
+	closeIdleFor time.Duration // stub clock - last call frame
+	closePend    int           // pending calls + relayed calls
+	points       int           // schedule points of the closing loop passed for this connection
 }
 
 type c19Fine struct {
@@ -376,6 +381,8 @@ func (f *c19Fine) sweep(script func(at string, c *c19Conn), maxInter int) {
 			f.info[c.id].testedIdle = f.now0.Sub(c.oLastCall) >= time.Duration(t.maxIdle)
 			lastStep = f.label(12)
 		case "close":
+			f.info[c.id].closeIdleFor = t.clock.get().Sub(c.oLastCall)
+			f.info[c.id].closePend = c.oPending + c.oRelayPending
 			call("close", c)
 			f.interleave(maxInter)
 			f.info[c.id].reachedClose = true
@@ -412,6 +419,15 @@ func (f *c19Fine) judge() {
 	t := f.t
 	for i, c := range t.conns {
 		in := f.info[i]
+		if in.closedBySwp && t.clockSane {
+			// the close, judged at the close instant (whatever the order of the tests before it)
+			if in.closeIdleFor < time.Duration(t.maxIdle) {
+				t.fail("[c19:sweep-closes-recently-used-connection] the sweep that started at clock t0+%v closed connection %d although, when the poller reached the close (idle.sweep.close), the connection had sent or received a call frame %v before (MaxIdleTime %v): a call frame was processed between the sweep's last look at the activity stamps and the close",
+					f.now0.Sub(time.Unix(0, t.t0)), c.id, in.closeIdleFor, time.Duration(t.maxIdle))
+			} else if in.closePend != 0 {
+				t.fail("the sweep closed connection %d although it had %d pending call(s) when the poller reached the close (idle.sweep.close)", c.id, in.closePend)
+			}
+		}
 		if in.closedBySwp {
 			if !in.testedIdle {
 				t.fail("[c19:sweep-closes-recently-used-connection] the sweep that started at clock t0+%v closed connection %d although a call frame was sent or received on it %v before the sweep's clock value (MaxIdleTime %v): the connection carried a call after the first loop collected it",
@@ -440,7 +456,7 @@ func (f *c19Fine) judge() {
 	f.info = nil
 }
 
-func c19fSetup(rng *rand.Rand, maxIdle int64, hInterval, hFail int64, relayMode bool) (*c19TL, string) {
+func c19fSetup(rng *rand.Rand, maxIdle int64, hInterval, hFail int64, relayMode bool, cfg c19Cfg) (*c19TL, string) {
 	t := &c19TL{rng: rng, clockSane: true, hist: map[string]int{}}
 	t.idleInterval, t.maxIdle = 30e9, maxIdle
 	t.hInterval, t.hTimeout, t.hFail = hInterval, 2e9, hFail
@@ -456,8 +472,9 @@ func c19fSetup(rng *rand.Rand, maxIdle int64, hInterval, hFail int64, relayMode 
 	t.block = &c19Block{arrived: make(chan struct{}, 16), rel: map[string]chan struct{}{}}
 	copts := tchannel.ConnectionOptions{HealthChecks: tchannel.HealthCheckOptions{
 		Interval: time.Duration(t.hInterval), Timeout: time.Duration(t.hTimeout), FailuresToClose: int(t.hFail)}}
+	t.cfg = cfg
 	opts := &tchannel.ChannelOptions{
-		TimeNow: t.clock.Now, TimeTicker: t.tickers.New, Logger: c19Logger{sink: t.sink},
+		TimeNow: t.clock.Now, TimeTicker: t.tickers.New,
 		IdleCheckInterval: time.Duration(t.idleInterval), MaxIdleTime: time.Duration(t.maxIdle),
 		DefaultConnectionOptions: copts,
 		Dialer: func(ctx context.Context, network, hp string) (net.Conn, error) {
@@ -468,6 +485,7 @@ func c19fSetup(rng *rand.Rand, maxIdle int64, hInterval, hFail int64, relayMode 
 	if t.relayMode {
 		opts.RelayHost = &c19RelayHost{}
 	}
+	t.cfg.apply(opts, t.sink)
 	ch, err := tchannel.NewChannel("verif-c19", opts)
 	if err != nil {
 		return nil, "NewChannel: " + err.Error()
@@ -494,10 +512,29 @@ func c19fRunCase(rng *rand.Rand, idx int, kind int, tier string, o *Out) {
 		hInterval = 1e9
 	}
 	relayMode := kind == 0 && rng.Intn(5) == 0
-	t, problem := c19fSetup(rng, maxIdle, hInterval, hFail, relayMode)
+	// kind 5: idx encodes (variant, k, call kind, clock advance), see below
+	d5v, d5k, d5call, d5adv := idx%2, 1+(idx/2)%4, (idx/8)%3, (idx/24)%2
+	if kind == 5 {
+		relayMode = d5call == 2
+		if maxIdle < 5e9 {
+			maxIdle = 5e9
+		}
+	}
+	cfg := c19NextCfg()
+	if kind == 5 {
+		// (the 48 schedules repeat with period 8 in their parameters: skew the configuration)
+		cfg = c19CfgAt(idx + idx/8 + idx/48)
+	}
+	t, problem := c19fSetup(rng, maxIdle, hInterval, hFail, relayMode, cfg)
 	id := fmt.Sprintf("f%d", idx)
 	if kind != 0 {
 		id = fmt.Sprintf("d%d_%d", kind, idx)
+	}
+	if kind == 5 {
+		id = fmt.Sprintf("d5_v%dk%dc%da%d_%d", d5v, d5k, d5call, d5adv, idx/48)
+	}
+	if t != nil {
+		id += "-" + t.cfg.String()
 	}
 	if t == nil {
 		o.Hist("fine:harness-anomaly")
@@ -611,6 +648,87 @@ func c19fRunCase(rng *rand.Rand, idx int, kind int, tier string, o *Out) {
 					}
 				}
 			}
+		case 5:
+			// A call completes exactly between two consecutive schedule points of the closing loop:
+			// at the k-th point (k = 1..4, WHATEVER its name: the family does not assume an order of
+			// check / pending / recheck / close) the poller passes for the target connection,
+			//   variant 0: a call that was pending and silent for more than MaxIdleTime when the sweep
+			//              began gets its response (the connection looked idle to the first loop);
+			//   variant 1: a call comes and goes.
+			// call kind 0: outbound call on connection 0, 1: inbound call on connection 1, 2: relayed
+			// call from connection 1 to connection 0 (target: the first of the two in the closing loop).  The oracle judges the
+			// close at the instant the poller reaches idle.sweep.close (judge()).
+			target := a
+			if d5call == 1 {
+				target = b
+			}
+			if d5call == 2 {
+				// a relayed call needs both connections open: the target is whichever of the two the
+				// closing loop handles first (the map order the implementation chose)
+				target = nil
+			}
+			start := func() {
+				switch d5call {
+				case 0:
+					t.evOutCallStart(a)
+				case 1:
+					t.evInCallStart(b)
+				default:
+					t.evRelayStart(b, a)
+				}
+				f.flushObs()
+			}
+			finish := func() {
+				switch {
+				case d5call == 0 && len(a.outCalls) > 0:
+					t.evOutCallFinish(a)
+				case d5call == 1 && len(b.inCalls) > 0:
+					t.evInCallFinish(b)
+				case d5call == 2 && len(a.relayOut) > 0:
+					t.evRelayFinish(a)
+				}
+				f.flushObs()
+			}
+			if d5v == 0 {
+				start()
+			}
+			t.evAdvance(t.maxIdle + 5e9)
+			f.flushObs()
+			fired := false
+			if t.anomaly == "" {
+				f.sweep(func(at string, c *c19Conn) {
+					switch at {
+					case "check", "pending", "recheck", "close":
+					default:
+						return
+					}
+					if target == nil {
+						target = c
+					}
+					if c != target || fired || f.info == nil {
+						return
+					}
+					f.info[target.id].points++
+					if f.info[target.id].points != d5k {
+						return
+					}
+					fired = true
+					f.info[a.id].touched = true
+					if d5call != 0 {
+						f.info[b.id].touched = true
+					}
+					if d5adv > 0 {
+						t.evAdvance(1e9)
+					}
+					if d5v == 1 {
+						start()
+					}
+					if t.anomaly == "" {
+						finish()
+					}
+				}, 0)
+			}
+			o.Hist(fmt.Sprintf("fine:d5:variant=%d,point=%d,fired=%v", d5v, d5k, fired))
 		}
 	}
 	f.flushObs()
@@ -643,6 +761,7 @@ func c19fRunCase(rng *rand.Rand, idx int, kind int, tier string, o *Out) {
 		}
 	}
 	o.Hist(fmt.Sprintf("fine:kind=%d", kind))
+	o.Hist("fine:cfg=" + t.cfg.String())
 	o.Hist(fmt.Sprintf("fine:conns=%d", len(t.conns)))
 	o.Hist(fmt.Sprintf("fine:sweeps=%d", f.sweeps))
 	o.Hist(fmt.Sprintf("fine:closed-by-sweep=%d", f.closes))
@@ -662,6 +781,14 @@ func engineSweepFine(rng *rand.Rand, n int, tier string, o *Out) {
 		for i := 0; i < reps; i++ {
 			c19fRunCase(rng, i, kind, tier, o)
 		}
+	}
+	// kind 5: the 48 directed schedules (2 variants x 4 points x 3 call kinds x clock advance or not)
+	d5 := 48
+	if tier == "thorough" {
+		d5 = 4 * 48
+	}
+	for i := 0; i < d5; i++ {
+		c19fRunCase(rng, i, 5, tier, o)
 	}
 	for i := 0; i < n; i++ {
 		c19fRunCase(rng, i, 0, tier, o)
